@@ -152,18 +152,19 @@ STRINGS = ["", "a", "ab", "xyz", "héé", "日本", "1234567", "12345678", "éé
 
 
 class StrVal(list):
-    """string value (its bytes) that also remembers, for generation only, the capacity class of the box it lives in:
-    slot = number of 8-byte slots of text+NUL fixed at creation, None = unknown (e.g. after a copy of a box with slack)"""
-    slot = None
+    """string value (its bytes) that also remembers, for generation only, the capacity of the box it lives in:
+    cap = bytes available for text + NUL as fixed at creation, None = unknown (e.g. after a copy of a box with slack)"""
+    cap = None
 
 
-def natural_slot(nbytes):
-    return (nbytes + 1 + 7) // 8
+def natural_cap(nbytes):
+    """capacity of the box the library creates for a text of nbytes bytes"""
+    return (nbytes + 1 + 7) // 8 * 8
 
 
-def strval(data, slot):
+def strval(data, cap):
     v = StrVal(data)
-    v.slot = slot
+    v.cap = cap
     return v
 
 
@@ -171,7 +172,7 @@ def has_slack(tx, v):
     """does the value contain a string whose box is not exactly as large as a fresh box for its text would be (or unknown)?"""
     k = tx["k"]
     if k == "str":
-        return getattr(v, "slot", None) is None or v.slot != natural_slot(len(v))
+        return getattr(v, "cap", None) is None or v.cap != natural_cap(len(v))
     if k == "struct":
         return any(has_slack(f, w) for f, w in zip(tx["f"], v))
     if k == "arr":
@@ -214,10 +215,12 @@ class Gen:
     """generates (input-form value, python constructor data) for a TX.
     refchoice(tx_ref, b) -> ("null",) | ("alias", at, tid, handle) | ("new", tid) | ("foreign", tid, (b2, a2), handle)"""
 
-    def __init__(self, ns, rng, refchoice=None, maxdim=3, np_forms=True, allow_uninit=False, mindim=0):
+    def __init__(self, ns, rng, refchoice=None, maxdim=3, np_forms=True, allow_uninit=False, mindim=0, capacity_p=0.15, lookup=None):
         self.mindim = mindim
         self.ns, self.rng, self.refchoice, self.maxdim, self.np_forms = ns, rng, refchoice, maxdim, np_forms
         self.shorter_strings = True
+        self.capacity_p = capacity_p
+        self.lookup = lookup
 
     def shape(self, tx, inarr=False):
         sh = [d if d >= 0 else max(self.mindim, self.rng.choice([0, 1, 1, 2, 2, 3][: self.maxdim + 3])) for d in tx["sh"]]
@@ -232,21 +235,26 @@ class Gen:
             return gen_scalar(tx["np"], rng)
         if k == "str":
             if like is not None:
-                nat = natural_slot(len(like))
-                cap = getattr(like, "slot", nat)
+                nat = natural_cap(len(like))
+                cap = getattr(like, "cap", nat)
+                fits = lambda t, c: len(t.encode()) + 1 <= c
                 if cap is None:                     # capacity unknown: anything not larger than the current text certainly fits
-                    cands, slot = [s for s in STRINGS if natural_slot(len(s.encode())) <= nat], None
-                elif _top and self.shorter_strings and rng.random() < 0.3:      # leaf assignment: a shorter text fits as well
-                    cands, slot = [s for s in STRINGS if natural_slot(len(s.encode())) <= cap], cap
-                else:                               # same box size: every stored size stays what it is
-                    cands, slot = [s for s in STRINGS if natural_slot(len(s.encode())) == cap], cap
+                    cands, ncap = [t for t in STRINGS if len(t.encode()) <= len(like)], None
+                elif _top and self.shorter_strings and rng.random() < 0.3:      # leaf assignment: any text that fits the box
+                    cands, ncap = [t for t in STRINGS if fits(t, cap)], cap
+                elif _top:                          # leaf assignment filling the box as far as possible
+                    cands, ncap = [t for t in STRINGS if fits(t, cap) and natural_cap(len(t.encode())) >= min(cap, nat)], cap
+                else:                               # inside a compound value: same natural box, every stored size stays what it is
+                    cands, ncap = [t for t in STRINGS if natural_cap(len(t.encode())) == cap], cap
                 s = rng.choice(cands) if cands else bytes(like).decode()
                 if not cands:
-                    slot = cap
-            else:
-                s = rng.choice(STRINGS)
-                slot = natural_slot(len(s.encode()))
-            return strval(s.encode("utf8"), slot), s
+                    ncap = cap
+                return strval(s.encode("utf8"), ncap), s
+            if rng.random() < self.capacity_p:      # created from a capacity: reads back as the empty string
+                n = rng.choice([1, 3, 5, 8, 10, 13, 16, 24])
+                return strval(b"", n), n
+            s = rng.choice(STRINGS)
+            return strval(s.encode("utf8"), natural_cap(len(s.encode()))), s
         if k == "struct":
             vs = [self.value(f, b, None if like is None else like[i], False, _inarr) for i, f in enumerate(tx["f"])]
             return [v[0] for v in vs], {self.ns.fname(i): v[1] for i, v in enumerate(vs)}
@@ -266,7 +274,7 @@ class Gen:
                     big[tuple(slice(None, None, 2) for _ in sh)] = a
                     a = big[tuple(slice(None, None, 2) for _ in sh)]
                 return inp, a
-            if len(sh) > 1 and ((n == 0 and 0 in sh[:-1]) or not is_static(it)) and not (_inarr and is_static(it)):
+            if len(sh) > 1 and ((n == 0 and 0 in sh[:-1]) or (not is_static(it) and rng.random() < 0.4)) and not _inarr:
                 o = np.empty(sh, dtype=object)          # nested lists cannot express these (rank not inferable / not accepted)
                 for i, idx in enumerate(np.ndindex(*sh)):
                     o[idx] = vs[i][1]
@@ -282,7 +290,12 @@ class Gen:
             return {"r": "foreign", "tid": ch[1], "src": list(ch[2])}, ch[3]
         tid = ch[1]
         tt = tx["to"] if k == "ref" else tx["of"][tid]
-        v, py = self.value(tt, b, None, False, _inarr)
+        tlike = None
+        if like is not None and not like["null"] and like["tid"] == tid and self.lookup is not None and rng.random() < 0.6:
+            tlike = self.lookup(b, like["at"])          # plain data of exactly the size of the object currently referred to
+            if tlike is not None and has_slack(tt, tlike):
+                tlike = None
+        v, py = self.value(tt, b, tlike, False, _inarr)
         if k == "uref":
             py = (self.ns.cls(tt).__name__, py)
         return {"r": "new", "tid": tid, "v": v}, py
